@@ -93,6 +93,7 @@ class LArr(LiftedBase):
     def __rmul__(s, o): return s._ew(o, lambda a, b: b * a)
     def __truediv__(s, o): return s._ew(o, lambda a, b: a / b)
     def __neg__(s): return LArr(s.n, s.inner, lambda i, a=s.fn: _map_el(lambda v: -v, a(i)))
+    def __pow__(s, o): return s._ew(o, lambda a, b: a ** b)
     def __abs__(s): return LArr(s.n, s.inner, lambda i, a=s.fn: _map_el(abs, a(i)))
     def __lt__(s, o): return s._ew(o, lambda a, b: a < b)
     def __le__(s, o): return s._ew(o, lambda a, b: a <= b)
@@ -145,11 +146,15 @@ class LArr(LiftedBase):
         if isinstance(key, tuple) and key and isinstance(key[0], SymInt):
             with S.quiet():
                 el = s.fn(key[0].z)
-            rest = key[1:]
+            rest = tuple(k for k in key[1:] if k is not Ellipsis)
             return el[rest] if rest else el
         m = _lmask(key)
         if m is not None:
             return LMasked(s, m)
+        if isinstance(key, tuple) and key and isinstance(key[0], slice) and key[0] == slice(None) and all(isinstance(k, (int, _np.integer)) for k in key[1:]):
+            rest = tuple(int(k) for k in key[1:])  # a[:, i, j]: the (i, j) component of every grain
+            inner = s.inner[len(rest):]
+            return LArr(s.n, inner, lambda i, a=s.fn, rest=rest: a(i)[rest])
         raise Unsupported(f"index {key!r} on a lifted array")
 
     def __setitem__(s, key, val):
